@@ -178,7 +178,7 @@ def digraph_grammar(graph):
     return Grammar('G', rules)
 
 
-def _common_vertex(graph, cyc):
+def _common_vertex(graph, _unused=None):
     """is some vertex on every simple cycle of the component of `cyc` vertices?  (for classification only)"""
     out = {}
     for scc in spec_sccs(graph):
@@ -190,6 +190,19 @@ def _common_vertex(graph, cyc):
     return out
 
 
+def unled(graph, lrec):
+    """-> (rules on a cycle that contains no rule of `lrec`, do the cycles of one of their components share no rule?)"""
+    sub = {v: {x for x in ws if x not in lrec} for v, ws in graph.items() if v not in lrec}
+    left = sorted(spec_on_cycle(sub))
+    if not left:
+        return [], False
+    common = _common_vertex(graph, None)
+    return left, any(not c for scc, c in common.items() if set(left) & scc)
+
+
+NO_COMMON = '-in-component-whose-cycles-share-no-rule'
+
+
 def check_flags(graph, flags, how, text):
     """flags: {rule: (is_lrec, is_memo)} -> failures"""
     fails = []
@@ -197,15 +210,12 @@ def check_flags(graph, flags, how, text):
     lrec = {v for v, (l, _m) in flags.items() if l}
     w = {'grammar_text': text, 'left_call_graph': gtext(graph), 'how': how,
          'flags': {v: {'is_lrec': l, 'is_memo': m} for v, (l, m) in sorted(flags.items())}}
-    if not spec_acyclic_without(graph, lrec):
-        sub = {v: {x for x in ws if x not in lrec} for v, ws in graph.items() if v not in lrec}
-        left = sorted(spec_on_cycle(sub))
-        common = _common_vertex(graph, cyc)
-        nocommon = any(not c for scc, c in common.items() if set(left) & scc)
+    left, nocommon = unled(graph, lrec)
+    if left:
         fails.append(dict(witness=w, detail=f'LEADERS: the rules {left} lie on a cycle of the left-call graph that contains no rule '
                                             f'marked is_lrec (marked: {sorted(lrec)})'
                                             + ('; the cycles of that component share no rule' if nocommon else ''),
-                          cls='cycle-without-leader-in-component-whose-cycles-share-no-rule' if nocommon else 'cycle-without-leader'))
+                          cls='cycle-without-leader' + (NO_COMMON if nocommon else '')))
     for v, (l, m) in sorted(flags.items()):
         if v not in cyc:
             if l:
@@ -348,7 +358,8 @@ def run_digraphs(tier, seed):
 
 
 # --------------------------------------------------------------------------- (b) rule graphs
-BATTERY = ('', 'a', 'aa', 'aaa', 'aaaa', 'b', 'ab', 'a a')
+# tokens are separated by blanks: with the default nameguard the token 'a' does not match inside 'aa'
+BATTERY = ('', 'a', 'a a', 'a a a', 'a a a a', 'b', 'a b', 'aa')
 
 
 def items_for(n):
@@ -518,7 +529,12 @@ def check_rule_graph(g):
         flags = {r.name: (bool(r.is_lrec), bool(r.is_memo)) for r in model.rules}
         fails += check_flags(graph, flags, 'tatsu.compile(grammar_text)', text_on)
     lrec_marked = sorted(r.name for r in model.rules if r.is_lrec)
-    unled_cycle = not spec_acyclic_without(graph, set(lrec_marked))
+    # cycles without a leader: in the left-call graph as TatSu reads it (a call is never nullable), and -- outside the
+    # restriction -- in the documented one, where a call to a nullable rule lets the next item start at the same position
+    syntactic = graph if inside else spec_leftcalls(g, {f'r{i}': False for i in range(len(g))})
+    un_syn, nocommon = unled(syntactic, set(lrec_marked))
+    un_true = un_syn if inside else unled(graph, set(lrec_marked))[0]
+    unled_cycle = bool(un_syn or un_true)
     for inp in BATTERY:
         st['parses'] += 1
         res, det = _guarded_parse(model, inp)
@@ -537,11 +553,18 @@ def check_rule_graph(g):
         w = dict(w_on, input=inp, call=f'tatsu.compile(grammar_text).parse({inp!r})')
         suffix = '' if inside else '-grammar-outside-restriction'
         if res == 'recursion':
-            lrec = sorted(r.name for r in model.rules if r.is_lrec)
-            sub = {v: {x for x in ws if x not in lrec} for v, ws in graph.items() if v not in lrec}
-            unled = sorted(spec_on_cycle(sub))
-            cls = ('recursionerror-cycle-without-leader' if unled else 'recursionerror-though-every-cycle-has-a-leader') + suffix
-            fails.append(dict(witness=w, detail=f'{det}; rules marked is_lrec: {lrec}; rules on a cycle with no leader: {unled}', cls=cls))
+            if un_syn:
+                cls = 'recursionerror-cycle-without-leader' + (NO_COMMON if nocommon else '')
+                why = f'rules on a cycle of the left-call graph with no leader: {un_syn}'
+            elif un_true:
+                cls = 'recursionerror-hidden-left-recursion-through-call-to-nullable-rule'
+                why = (f'rules {un_true} reach themselves at the same position through a call to a nullable rule '
+                       f'(nullable: {sorted(k for k, v in spec_nullable(g).items() if v)}); the analysis treats calls as never nullable, '
+                       'sees no such cycle, and these rules are not memoized (their component has another leader), so no guard stops the recursion')
+            else:
+                cls = 'recursionerror-though-every-cycle-has-a-leader' + suffix
+                why = 'every cycle has a leader'
+            fails.append(dict(witness=w, detail=f'{det}; rules marked is_lrec: {lrec_marked}; {why}', cls=cls))
         elif res == 'timeout':
             fails.append(dict(witness=w, detail=det, cls='parse-does-not-end-within-budget' + suffix))
         else:
@@ -597,7 +620,7 @@ def run_rule_graphs(tier, seed):
     from bounded.common import JOBS
     rnd = random.Random(f'C16-b-{seed}')
     one = [(b,) for b in all_bodies(1)]
-    n2, n3 = (1800, 1800) if tier == 'quick' else (20000, 20000)
+    n2, n3 = (1800, 1800) if tier == 'quick' else (14000, 14000)
     two = sample_grammars(2, n2, rnd)
     three = sample_grammars(3, n3, rnd)
     graphs = one + two + three
